@@ -200,19 +200,28 @@ def run(ck: Checker):
     inc = incs[0]
     owner = dotted(inc.ast.target.value)
     elock = f'{owner}.lock'
-    tests = [n for n in cfg.nodes if n.kind == 'test' and isinstance(n.ast, ast.Compare) and dotted(n.ast.left) == f'{owner}.n']
+    # the comparison: directly in a test, or bound to a local first (`last = box.n == self.n_forks; if last:`)
+    def _cmp(e):
+        return e if isinstance(e, ast.Compare) and dotted(e.left) == f'{owner}.n' else None
+
+    tests = [(n, n.ast) for n in cfg.nodes if n.kind == 'test' and _cmp(n.ast) is not None]
+    for n in cfg.nodes:
+        if isinstance(n.ast, ast.Assign) and len(n.ast.targets) == 1 and isinstance(n.ast.targets[0], ast.Name) and _cmp(n.ast.value) is not None:
+            nm = n.ast.targets[0].id
+            if any(t.kind == 'test' and isinstance(t.ast, ast.Name) and t.ast.id == nm for t in cfg.nodes):
+                tests.append((n, n.ast.value))
     gets = [cfg.nodes[c] for c in C]
     probs = []
     if not tests:
         probs.append('the counter is not compared with the number of forks')
-    for n in [inc] + tests + gets:
+    for n in [inc] + [t for t, _ in tests] + gets:
         if elock not in must.get(n.id, frozenset()):
             probs.append(f'L{n.lineno} `{norm_text(n.ast)[:40]}` is outside `{elock}`')
     exits = {n.id for n in cfg.nodes if n.kind == 'with_exit' and canon(n.ast.context_expr) == elock}
-    for t in tests:
+    for t, cmp_ in tests:
         mid = reachable(cfg, [inc.id]) & reachable(cfg, [t.id], forward=False)
         if mid & exits:
             probs.append('the element lock is released between the increment and the comparison')
-        if not (isinstance(t.ast.ops[0], ast.Eq) and dotted(t.ast.comparators[0]) == 'self.n_forks'):
-            probs.append(f'the pop is guarded by `{norm_text(t.ast)}`, not by `count == number of forks`')
+        if not (isinstance(cmp_.ops[0], ast.Eq) and dotted(cmp_.comparators[0]) == 'self.n_forks'):
+            probs.append(f'the pop is guarded by `{norm_text(cmp_)}`, not by `count == number of forks`')
     ck.ob('C10-5', f, inc.ast, not probs, '; '.join(probs) if probs else f'increment, comparison with `self.n_forks` and window pop all inside one `{elock}` region')
